@@ -696,7 +696,7 @@ def phase_multi(ctx, arg):
             ctx.sample({"pool": pool, "features": sorted(c.meta.features), "bytecode": I.listing(c.units), "decompiled": c.src, "tuples": len(c.tuples)})
     # explain-away: neutralise the known-bad features whose single-feature symptom matches, re-run, repeat
     pending = [{"orig": c, "cur": c, "symptom": s, "detail": d, "attr": []} for c, s, d in bad]
-    for rnd in range(7):
+    for rnd in range(4 if ctx.quick else 7):
         if not pending:
             break
         nxt = []
@@ -777,8 +777,12 @@ SHARD_METHODS = 250
 def run(ctx):
     ctx.rule = ("generated well-typed static int/long methods -> DEX -> DAD class source -> javac -> one JVM per batch, every method on boundary "
                 "and seeded random argument tuples (all values for 1 parameter, all pairs for 2, >=120 tuples for 3), compared per call with the "
-                "independent Dalvik interpreter (value or exception class). Pools: P0 single operator/constant/move form x operand shape, P1 one "
-                "if/else per comparison, P0m multi-operator straight line, P2 &&/||, P3 loops, P4 switches, P5 nested mixes. "
+                "independent Dalvik interpreter (value or exception class). Single-subject pools: P0 one operator/constant/move form x operand shape "
+                "(register, constant lhs/rhs/both, in-place, unused result), P1 one if/else per comparison, PC every two-level nesting and sequence "
+                "of if/if-else/while/do-while/switch, PS switch shapes, PD definition/declaration/variable-type patterns. Random pools: P0m "
+                "multi-operator straight line, P2 &&/||, P3 loops, P4 switches, P5 nested mixes; a failing random method is attributed to a "
+                "single-subject mechanism only if it has that feature, the symptom fits, and it passes once the feature is replaced by a benign "
+                "equivalent (explain-away re-run), else it is reported as unattributed-<pool>-<symptom>. "
                 "distinct non-trivial = distinct (feature set, AST shape) of methods that were decompiled and ran >= 8 tuples")
     ctx.assumptions = ["vf.model.interp implements the Dalvik int/long semantics (cross-checked against the JVM on the generator's own Java rendering"
                        " of every method: always for the single-subject pools, for all pools in the thorough tier)",
